@@ -20,7 +20,8 @@ From Verif Require Import Base.Prelude Model.Balance Proofs.BalanceSum Proofs.Ba
   Model.Witness Proofs.Witness Proofs.WitnessModels.
 From Verif Require Model.Reputation Model.NeoFSID Model.Config Model.Audit Model.Estimations
   Model.Placement Model.Container Model.Vote Model.NeoFSVote
-  Model.Gas Model.ProxyProc Model.Alphabet Model.NeoFSGas Model.GasWorld.
+  Model.Gas Model.ProxyProc Model.Alphabet Model.NeoFSGas Model.GasWorld
+  Model.Netmap Model.NNS Proofs.NNSBase Proofs.NNSAuth Model.MigStore Model.Migration.
 Import Multisig.
 
 (** ** (a) Thresholds *)
@@ -303,6 +304,74 @@ Theorem C03_verify_GasWorld : forall c a cm ir h tx,
 Proof. exact verify_GasWorld. Qed.
 Print Assumptions C03_verify_GasWorld.
 
+(** Netmap: newEpoch / addPeer / addPeerIR / addNode / deleteNode /
+    updateState / updateStateIR / updateSnapshotCount / subscribeForNewEpoch /
+    setConfig.  The model's [alpha] flag is [RAlpha]'s verdict and its
+    CheckWitness on the node key the operation names answers whether that
+    key's account is witnessed ([to_nmctx_sound]). *)
+Theorem C03_inert_Netmap : forall (acc : bytes -> bytes) sub_ok sub_accepts s c a o r h,
+  (forall i k, nm_node_key o = Some (i, k) -> arg_princ a i = acc k) ->
+  required (nm_key o) = Some r -> eval_req c a r = false ->
+  Netmap.nstep sub_ok sub_accepts s (to_nmctx acc c a o h, o) = (s, false, []).
+Proof. exact inert_Netmap. Qed.
+Print Assumptions C03_inert_Netmap.
+
+Theorem C03_to_nmctx_sound : forall (acc : bytes -> bytes) c a o h i k,
+  nm_node_key o = Some (i, k) ->
+  Netmap.check_witness (to_nmctx acc c a o h) k = witnessed c (acc k) /\
+  Netmap.alpha (to_nmctx acc c a o h) = eval_req c a RAlpha.
+Proof. exact to_nmctx_sound. Qed.
+Print Assumptions C03_to_nmctx_sound.
+
+(** NNS: register / registerTLD / transfer / renew (both overloads) /
+    setAdmin / addRecord / setRecord / deleteRecords / updateSOA / setPrice.
+    The family's [authorised] (C11) implies the row's requirement when the
+    call facts describe the NameState the guard reads ([nns_facts]):
+    [may_admin] is [RNameAdmin], [owner_wit] is [RNameOwner], [cmt] is
+    [RCommittee]; so an unmet row is an unauthorised call and
+    C11_unauthorised_inert applies. *)
+Theorem C03_inert_NNS : forall hash valid_name valid_data str_ok s c a now rj o k r,
+  In k (nns_keys o) -> nns_facts hash valid_name (to_nnsctx c a now rj) s a o ->
+  required k = Some r -> eval_req c a r = false ->
+  exists v, NNS.nstep hash valid_name valid_data str_ok s (to_nnsctx c a now rj, o) = (s, v, []) /\
+    (v = VFault \/ (v = VBool false /\ exists t n, o = NNS.Transfer t n)).
+Proof. exact inert_NNS. Qed.
+Print Assumptions C03_inert_NNS.
+
+Theorem C03_authorised_is_requirement : forall hash valid_name c a now rj s o k r,
+  In k (nns_keys o) -> nns_facts hash valid_name (to_nnsctx c a now rj) s a o ->
+  required k = Some r ->
+  NNSAuth.authorised hash valid_name (to_nnsctx c a now rj) s o = true -> eval_req c a r = true.
+Proof. exact authorised_req. Qed.
+Print Assumptions C03_authorised_is_requirement.
+
+Theorem C03_to_nnsctx_sound : forall c a now rj h ns,
+  NNSBase.wit_of (to_nnsctx c a now rj) h = witnessed c h /\
+  NNSBase.cmt (to_nnsctx c a now rj) = eval_req c a RCommittee /\
+  (ns_facts a ns -> NNSBase.may_admin (to_nnsctx c a now rj) ns = eval_req c a RNameAdmin) /\
+  (ns_facts a ns -> NNSAuth.owner_wit (to_nnsctx c a now rj) ns = eval_req c a RNameOwner).
+Proof.
+  intros. split; [apply nns_wit_sound|]. split; [apply nns_cmt_sound|].
+  split; [apply may_admin_req|apply owner_wit_req].
+Qed.
+Print Assumptions C03_to_nnsctx_sound.
+
+(** update of all eleven contracts, through the gate of the Migration model:
+    without the witness of the account [Update] computes — the committee
+    majority, for neofs and processing the majority of the designated
+    NeoFSAlphabet role — the transaction changes neither the storage nor the
+    running version, whatever NEF, manifest and data are passed. *)
+Theorem C03_inert_Update : forall msaddr stdacc h160 prevN verN k c a e0 mgmt_ok data st r,
+  gate_facts msaddr a k (to_menv c e0) ->
+  required (k, "update", 3%nat) = Some r -> eval_req c a r = false ->
+  Migration.update_tx msaddr stdacc h160 prevN verN (mc_of k) (to_menv c e0) mgmt_ok data st = (st, false).
+Proof. exact inert_Update. Qed.
+Print Assumptions C03_inert_Update.
+
+Theorem C03_to_menv_sound : forall c e0 h, Migration.witnessed (to_menv c e0) h = witnessed c h.
+Proof. exact to_menv_sound. Qed.
+Print Assumptions C03_to_menv_sound.
+
 (** ** Which rows have a proved inertness theorem *)
 Definition proved_rows : list (mkey * string) := [
   ((KBalance, "burn", 3%nat), "C03_inert_Balance, C03_inert_Container");
@@ -338,7 +407,38 @@ Definition proved_rows : list (mkey * string) := [
   ((KAlphabet, "emit", 0%nat), "C03_inert_GasWorld");
   ((KAlphabet, "onNEP17Payment", 3%nat), "C03_inert_GasWorld");
   ((KProcessing, "onNEP17Payment", 3%nat), "C03_inert_GasWorld");
-  ((KProxy, "onNEP17Payment", 3%nat), "C03_inert_GasWorld")
+  ((KProxy, "onNEP17Payment", 3%nat), "C03_inert_GasWorld");
+  ((KNetmap, "newEpoch", 1%nat), "C03_inert_Netmap");
+  ((KNetmap, "addPeer", 1%nat), "C03_inert_Netmap");
+  ((KNetmap, "addPeerIR", 1%nat), "C03_inert_Netmap");
+  ((KNetmap, "addNode", 1%nat), "C03_inert_Netmap");
+  ((KNetmap, "deleteNode", 1%nat), "C03_inert_Netmap");
+  ((KNetmap, "updateState", 2%nat), "C03_inert_Netmap");
+  ((KNetmap, "updateStateIR", 2%nat), "C03_inert_Netmap");
+  ((KNetmap, "updateSnapshotCount", 1%nat), "C03_inert_Netmap");
+  ((KNetmap, "subscribeForNewEpoch", 1%nat), "C03_inert_Netmap");
+  ((KNNS, "register", 7%nat), "C03_inert_NNS");
+  ((KNNS, "registerTLD", 6%nat), "C03_inert_NNS");
+  ((KNNS, "transfer", 3%nat), "C03_inert_NNS");
+  ((KNNS, "renew", 2%nat), "C03_inert_NNS");
+  ((KNNS, "renew", 1%nat), "C03_inert_NNS (RenewDefault = Renew name 1)");
+  ((KNNS, "setAdmin", 2%nat), "C03_inert_NNS");
+  ((KNNS, "addRecord", 3%nat), "C03_inert_NNS");
+  ((KNNS, "setRecord", 4%nat), "C03_inert_NNS");
+  ((KNNS, "deleteRecords", 2%nat), "C03_inert_NNS");
+  ((KNNS, "updateSOA", 6%nat), "C03_inert_NNS");
+  ((KNNS, "setPrice", 1%nat), "C03_inert_NNS");
+  ((KAlphabet, "update", 3%nat), "C03_inert_Update");
+  ((KAudit, "update", 3%nat), "C03_inert_Update");
+  ((KBalance, "update", 3%nat), "C03_inert_Update");
+  ((KContainer, "update", 3%nat), "C03_inert_Update");
+  ((KNeoFS, "update", 3%nat), "C03_inert_Update");
+  ((KNeoFSID, "update", 3%nat), "C03_inert_Update");
+  ((KNetmap, "update", 3%nat), "C03_inert_Update");
+  ((KNNS, "update", 3%nat), "C03_inert_Update");
+  ((KProcessing, "update", 3%nat), "C03_inert_Update");
+  ((KProxy, "update", 3%nat), "C03_inert_Update");
+  ((KReputation, "update", 3%nat), "C03_inert_Update")
 ].
 
 (** Rows for which there is nothing to prove: the requirement is [ROpen]. *)
@@ -347,19 +447,20 @@ Definition trivially_open (k : mkey) : bool :=
 
 Definition is_proved (k : mkey) : bool := existsb (fun x => mkey_eqb k (fst x)) proved_rows.
 
-(** Rows covered only by the sweep of harness/witness_test.go (no model yet:
-    Netmap, NNS, the update / _deploy / _initialize entry points, ...). *)
+(** Rows covered only by the sweep of harness/witness_test.go: no integrated
+    model has alphabet.vote, container.start/stopContainerEstimation, nor the
+    VM rule that makes the [_deploy] / [_initialize] entry points uncallable. *)
 Definition swept_only_rows : list mkey :=
   filter (fun k => negb (is_proved k) && negb (trivially_open k) = true) (map fst table).
 
 (** Every listed row is a row of the table, is listed once, is the key of one
-    of the operations of the models above; 34 of the 90 rows are proved, 3 are
-    open with nothing to prove, 53 are swept only. *)
+    of the operations of the models above; 65 of the 90 rows are proved, 3 are
+    open with nothing to prove, 22 are swept only. *)
 Theorem C03_models_cover :
   forallb (fun x => match required (fst x) with Some _ => true | None => false end) proved_rows = true /\
   keys_distinct (map fst proved_rows) = true /\
   (length proved_rows, length (filter trivially_open (map fst table)), length swept_only_rows, length table)
-    = (34, 3, 53, 90)%nat /\
+    = (65, 3, 22, 90)%nat /\
   (* the keys the models' operations are mapped to are exactly the listed ones *)
   (forall o, is_proved (bop_key o) = true) /\
   (forall o, is_proved (nid_key o) = true) /\
@@ -368,7 +469,10 @@ Theorem C03_models_cover :
   (forall o k, pl_key o = Some k -> is_proved k = true) /\
   (forall o k, co_key o = Some k -> is_proved k = true) /\
   (forall o k, nv_key o = Some k -> is_proved k = true) /\
-  (forall e o k, gw_key e o = Some k -> is_proved k = true).
+  (forall e o k, gw_key e o = Some k -> is_proved k = true) /\
+  (forall o, is_proved (nm_key o) = true) /\
+  (forall o k, In k (nns_keys o) -> is_proved k = true) /\
+  (forall k, is_proved (k, "update", 3%nat) = true).
 Proof.
   split; [vm_compute; reflexivity|]. split; [vm_compute; reflexivity|]. split; [vm_compute; reflexivity|].
   split; [intros []; reflexivity|]. split; [intros []; reflexivity|]. split; [intros []; reflexivity|].
@@ -377,9 +481,13 @@ Proof.
   split; [intros o kk H; destruct o; cbn in H; try discriminate H; injection H as <-; try reflexivity;
           match goal with |- is_proved (bop_key ?b) = true => destruct b; reflexivity end|].
   split; [intros o kk H; destruct o; cbn in H; try discriminate H; injection H as <-; reflexivity|].
-  intros e o kk H; destruct o; cbn [gw_key] in H; try discriminate H; try (injection H as <-; reflexivity).
-  match type of H with context [Gas.kind_of e ?t] => destruct (Gas.kind_of e t) end;
-    try discriminate H; injection H as <-; reflexivity.
+  split; [intros e o kk H; destruct o; cbn [gw_key] in H; try discriminate H; try (injection H as <-; reflexivity);
+          match type of H with context [Gas.kind_of e ?t] => destruct (Gas.kind_of e t) end;
+          try discriminate H; injection H as <-; reflexivity|].
+  split; [intros o; destruct o; reflexivity|].
+  split; [intros o kk H; destruct o; cbn [nns_keys In] in H;
+          repeat (destruct H as [<-|H]; [reflexivity|]); destruct H|].
+  intros k; destruct k; reflexivity.
 Qed.
 Print Assumptions C03_models_cover.
 
